@@ -176,6 +176,9 @@ pub struct Hostile {
     pub concat_lit_arith_char: bool,
     /// cross-type equalities, absent right-hand references … (oracle: Undefined, counted)
     pub undefined_mix: bool,
+    /// assigned string literals whose text is the name of a fact (`s0 = "n0"`, `Obj.s = "Flat.s"`):
+    /// the literal is a text, not a reference
+    pub fact_name_literals: bool,
 }
 
 pub fn gen_leaf(rng: &mut Rng, h: &Hostile) -> Leaf {
@@ -299,6 +302,7 @@ pub fn gen_set(rng: &mut Rng, h: &Hostile) -> Action {
             let ff = rng.bool();
             Rhs::Arith(gen_num_chain(rng, ff))
         }
+        (Ty::Str, 0..=3) if h.fact_name_literals && rng.bool() => Rhs::Lit(V::Str(rng.pick(&schema()).0.to_string())),
         (Ty::Str, 0..=3) => Rhs::Lit(V::Str(rng.pick(&STRS).to_string())),
         (Ty::Str, 4..=5) => Rhs::FieldRef(rng.pick(&fields_of(&[Ty::Str])).to_string()),
         (Ty::Str, _) => Rhs::Arith(gen_str_chain(rng, h.concat_lit_arith_char)),
